@@ -41,6 +41,9 @@ type Frame struct {
 	freeVars []Val
 	isGo     bool
 	depth    int
+	callKey  string // for inlined frames: the event that started them (hooks run their updates at the return)
+	callKind string
+	callPos  token.Pos
 }
 
 func (f *Frame) clone() *Frame {
@@ -636,6 +639,13 @@ func (x *Exec) doReturn(st *State, fr *Frame, rv Val, pos token.Pos) {
 		out.Typ = fr.retInstr.Type()
 		p.regs[fr.retInstr] = out
 	}
+	if fr.callKey != "" {
+		res := rv
+		if tp, ok := rv.Typ.(*types.Tuple); ok && tp.Len() == 1 {
+			res.Typ = tp.At(0).Type()
+		}
+		x.hookAfter(st, p, fr.callKind, fr.callKey, fr.params, res, fr.callPos)
+	}
 	x.step(st, p, fr.retBlock, fr.retIdx+1, fr.retPrev)
 }
 
@@ -1013,9 +1023,10 @@ func (x *Exec) makeInterface(st *State, v Val, it types.Type) Val {
 	// an interface value is a handle h != 0 with itype(h) = tag and payload functions
 	tag := x.typeTag(v.Typ)
 	var h *T
-	if len(v.C) == 1 && v.C[0].S == SInt && isPointerLike(v.Typ) {
-		// injective encoding for pointer payloads keeps equality meaningful
+	if len(v.C) == 1 && (v.C[0].S == SInt || v.C[0].S == SStr || v.C[0].S == SBool) {
+		// functional encoding for scalar payloads (pointers, ints, strings, bools): equal values box to equal handles
 		h = App(fmt.Sprintf("mkiface_%d", tag), SInt, v.C[0])
+		x.prog.noteTagSort(tag, v.C[0].S)
 	} else {
 		h = st.X.fresh("iface", SInt)
 	}
